@@ -1138,8 +1138,13 @@ def _linspace(start, stop, num=50, endpoint=True, **kw):
     n = fz(num)
     if isinstance(n, int) and not isinstance(n, bool) and 0 < n <= 64 and not _is_opaque(start) and not _is_opaque(stop):
         # a concrete count: the points themselves, start + (stop - start) * k / (n or n - 1), as polynomials in the bounds
-        a, b = lift(start), lift(stop)
         den = (n - 1) if (endpoint and n > 1) else n
+        sa, sb = to_at(start), to_at(stop)
+        if sa.axes != () or sb.axes != ():
+            # array-valued bounds (numpy semantics): the n points come first, the bounds' axes follow
+            pts = [sa + (sb - sa) * Fraction(k, den) for k in range(n)]
+            return alg.jnp_stack(pts, 0)
+        a, b = lift(start), lift(stop)
         return AT((n,), np.array([a + (b - a) * Fraction(k, den) for k in range(n)], dtype=object))
     return Sym('linspace', fz(start), fz(stop), n, bool(fz(endpoint)))
 
@@ -1573,7 +1578,7 @@ def make_world_externals(world_ref):
              sqrt=_sqrt_model, exp=opaque_fn('exp'), where=_where, prod=opaque_fn('prod'),
              equal=lambda a, b: Pred.compare(lift(a), lift(b), '=='), not_equal=lambda a, b: Pred.compare(lift(a), lift(b), '==').negate(),
              remainder=lambda a, b: a % b, mod=lambda a, b: a % b, floor_divide=lambda a, b: a // b,
-             broadcast_to=symaware('broadcast_to', alg.jnp_broadcast_to), diagonal=symaware('diagonal', alg.jnp_diagonal),
+             broadcast_to=symaware('broadcast_to', alg.jnp_broadcast_to), broadcast_arrays=alg.jnp_broadcast_arrays, diagonal=symaware('diagonal', alg.jnp_diagonal),
              square=_elementwise('square', lambda x: x * x), power=_elementwise('power', lambda x, n: x ** n),
              multiply=_elementwise('multiply', lambda x, y: x * y), add=_elementwise('add', lambda x, y: x + y),
              subtract=_elementwise('subtract', lambda x, y: x - y), divide=_elementwise('divide', lambda x, y: x / y),
